@@ -113,6 +113,8 @@ def oracle(case: dict) -> Outcome:
         cl.append("rank_deficient")
     if not informative:
         cl.append("uninformative")
+    if case["recipe"].get("struct"):
+        cl.append("structured_" + case["recipe"]["struct"])
     k = solver["kind"]
     if k in ("eigen", "eigen_stab"):
         A0 = A.clone()
@@ -281,8 +283,16 @@ def _strategy(nmax: int):
             root = [draw(st.integers(1, 8)), draw(st.sampled_from([1, 1, 1, 2, 3]))]
         eps_rel = draw(st.one_of(st.floats(-12, 0).map(lambda e: 10.0**e), st.sampled_from([1e-12, 1e-6, 1e-3, 1.0]),
                                  st.floats(-3, 1).map(lambda d_: min(1.0, 10.0 ** (-recipe["logk"] + d_))), st.floats(-3, 1).map(lambda d_: min(1.0, 10.0 ** (-recipe["logk"] + d_)))))
-        if n > 16 and dtype == "f64":
-            pass
+        if kind == "higher" and draw(st.sampled_from([False] * 5 + [True])):
+            root = [draw(st.integers(10, 17)), draw(st.integers(10, 17))]  # numerator and denominator both large
+        if kind == "newton" and draw(st.sampled_from([False] * 7 + [True])):
+            # forced class: the scaled starting matrix of the iteration has an exactly unit diagonal (see matgen 'newton_unit_start')
+            n = draw(st.sampled_from([2, 2, 3, 4, 4, 6, 9]))
+            rmin = int(2 * math.sqrt(n) - 1) + 1
+            root = [draw(st.integers(rmin, rmin + 4)), 1]
+            eps_rel = draw(st.sampled_from([1e-12, 1e-8, 1e-4]))
+            recipe = {"kind": "struct", "struct": "newton_unit_start", "root": root[0], "eps_rel": eps_rel, "logk": 1.0, "seed": draw(st.integers(0, 10**6)),
+                      "scale": draw(st.sampled_from([1.0, 1.0, 1e-3, 37.0, 1e4])), "basis": "random", "nzero": 0}
         return {"n": n, "dtype": dtype, "recipe": recipe, "eps_rel": eps_rel, "root": root, "solver": solver, "layout": draw(st.sampled_from(["row", "row", "col"]))}
 
     return case()
